@@ -18,6 +18,7 @@ from minecraft.networking.packets import packet_listener as pl_mod
 from minecraft.exceptions import IgnorePacket
 
 from pyvc.driver import Unit
+from pyvc.models import AbstractSeq
 from pyvc.values import SInt, SBool, And, Or, Not, Implies, mk_bool
 from pyvc.interp import PyRaise
 from pyvc.loops import ForSpec
@@ -36,7 +37,7 @@ class Boom(Exception):
     pass
 
 
-class AbsList(object):
+class AbsList(AbstractSeq):
     """A list of abstract listeners of symbolic length."""
 
     def __init__(self, kind, n):
